@@ -10,7 +10,7 @@ import datetime as _dt
 
 import z3
 
-from .values import (SymDT, SymTD, LazyStr, Sym, SymBool, SymBV, SymFloat, SymInt, SymStr, Unsupported, is_sym, mkbool, mkint,
+from .values import (SymDT, SymTD, LazyStr, Sym, SymBool, SymBV, SymFloat, SymInt, SymStr, Unsupported, deep_sym, is_sym, mkbool, mkint,
                      zint)
 
 US = 1000000
@@ -308,9 +308,30 @@ def strftime(eng, v, fmt):
     return eng.concat_str(out)
 
 
-class _TimeTuple:
-    def __init__(self, yday):
-        self.tm_yday = yday
+class _TimeTuple(tuple):
+    """time.struct_time of a symbolic datetime: (year, month, day, hour, minute, second, weekday, yearday, isdst)"""
+
+    tm_year = property(lambda self: self[0])
+    tm_mon = property(lambda self: self[1])
+    tm_mday = property(lambda self: self[2])
+    tm_hour = property(lambda self: self[3])
+    tm_min = property(lambda self: self[4])
+    tm_sec = property(lambda self: self[5])
+    tm_wday = property(lambda self: self[6])
+    tm_yday = property(lambda self: self[7])
+    tm_isdst = property(lambda self: self[8])
+
+
+def time_tuple(eng, v, isdst):
+    if v.fields is None:
+        days, h, mi, sec, _us = dt_fields(eng, v)
+        y, mo, d = civil_from_days(eng, days)
+        if is_sym(mo):
+            mo = eng.concretize_int(mo, "month")
+        yday = eng.op("Add", eng.op("Sub", days, _days_before_year(eng, y)), 1)
+        return _TimeTuple((y, mo, d, h, mi, sec, eng.op("Mod", days, 7), yday, isdst))
+    y, mo, d, h, mi, sec, _us = v.fields
+    return _TimeTuple((y, mo, d, h, mi, sec, eng.op("Mod", _days(eng, v), 7), day_of_year(eng, v), isdst))
 
 
 def dt_attr(eng, v, name):
@@ -325,7 +346,7 @@ def dt_attr(eng, v, name):
         return {"year": y, "month": m, "day": d}[name]
     if name == "tzinfo":
         return None
-    if name in ("weekday", "isoweekday", "isocalendar", "toordinal", "timetuple", "replace", "date", "strftime", "isoformat",
+    if name in ("weekday", "isoweekday", "isocalendar", "toordinal", "timetuple", "utctimetuple", "replace", "date", "strftime", "isoformat",
                 "astimezone", "timestamp", "time"):
         return DTMethod(v, name)
     raise AttributeError(name)
@@ -385,7 +406,9 @@ class DTMethod:
                 f[FIELD_NAMES.index(k)] = val
             return m_datetime(eng, *f)
         if n == "timetuple":
-            return _TimeTuple(day_of_year(eng, v))
+            return time_tuple(eng, v, -1)
+        if n == "utctimetuple":
+            return time_tuple(eng, v, 0)          # naive datetimes only (aware symbolic datetimes are unsupported)
         raise Unsupported("datetime method " + n)
 
 
@@ -399,6 +422,34 @@ def _days_before_year(eng, year):
     ym = eng.op("Sub", year, 1)
     return eng.op("Add", eng.op("Sub", eng.op("Add", eng.op("Mult", ym, 365), eng.op("FloorDiv", ym, 4)),
                                 eng.op("FloorDiv", ym, 100)), eng.op("FloorDiv", ym, 400))
+
+
+def days_from_civil(eng, year, month, day):
+    """whole days since 0001-01-01 for a calendar date with a concrete month"""
+    days = _days_before_year(eng, year)
+    days = eng.op("Add", days, CUM_DAYS[month - 1])
+    if month > 2:
+        # one shared term per year (days before 1 January) + days before the month + leap day as an if-then-else:
+        # dates of the same year differ by a linear term, which is what weekday / week-number reasoning needs
+        leap_t = _leap_term(eng, year)
+        if isinstance(leap_t, SymBool):
+            days = eng.op("Add", days, eng.define_var("leapday", z3.If(leap_t.t, z3.IntVal(1), z3.IntVal(0)), 0, 1))
+        elif leap_t:
+            days = eng.op("Add", days, 1)
+    return eng.op("Add", days, eng.op("Sub", day, 1))
+
+
+def m_timegm(eng, tt):
+    """calendar.timegm: seconds since 1970-01-01 of a (UTC) time tuple"""
+    import calendar
+    if not deep_sym(tuple(tt)):
+        return calendar.timegm(tt)
+    year, month, day, hour, minute, second = tuple(tt)[:6]
+    if is_sym(month):
+        month = eng.concretize_int(month, "month")
+    days = eng.op("Sub", days_from_civil(eng, year, month, day), 719162)
+    secs = eng.op("Add", eng.op("Add", eng.op("Mult", hour, 3600), eng.op("Mult", minute, 60)), second)
+    return eng.op("Add", eng.op("Mult", days, 86400), secs)
 
 
 def isocalendar(eng, v):
@@ -435,18 +486,7 @@ def m_datetime(eng, year, month=None, day=None, hour=0, minute=0, second=0, micr
             raise ValueError(f"{nm} is out of range")
     if is_sym(month):
         month = eng.concretize_int(month, "month")
-    days = _days_before_year(eng, year)
-    leap_t = None
-    days = eng.op("Add", days, CUM_DAYS[month - 1])
-    if month > 2:
-        # one shared term per year (days before 1 January) + days before the month + leap day as an if-then-else:
-        # dates of the same year differ by a linear term, which is what weekday / week-number reasoning needs
-        leap_t = _leap_term(eng, year)
-        if isinstance(leap_t, SymBool):
-            days = eng.op("Add", days, eng.define_var("leapday", z3.If(leap_t.t, z3.IntVal(1), z3.IntVal(0)), 0, 1))
-        elif leap_t:
-            days = eng.op("Add", days, 1)
-    days = eng.op("Add", days, eng.op("Sub", day, 1))
+    days = days_from_civil(eng, year, month, day)
     # day validity
     leap = eng.and_(eng.cmp("Eq", eng.op("Mod", year, 4), 0),
                     eng.or_(eng.cmp("NotEq", eng.op("Mod", year, 100), 0), eng.cmp("Eq", eng.op("Mod", year, 400), 0)))
@@ -463,3 +503,5 @@ def m_datetime(eng, year, month=None, day=None, hour=0, minute=0, second=0, micr
 def install(eng):
     eng.models[_dt.timedelta] = m_timedelta
     eng.models[_dt.datetime] = m_datetime
+    import calendar
+    eng.models[calendar.timegm] = m_timegm
